@@ -28,7 +28,7 @@ CHECKS = {
          "EW/AW results judged against E[a U b] or EG a / not E[not b U (not a and not b)] computed by TLC."),
  "C14": ("API pipeline outcome (ok / err / panic) judged by TLC: the specification lexes and parses the recorded characters (Syntax.tla) and decides ShouldErr (binding, propositions, context labels, nesting depth vs k) (Trace_Sem 'api', 'apistr')",
          "Every string entry point under catch_unwind on valid formulae with injected defects, grammar-mutated, token-soup and unicode strings, partial context maps (sets also outside the valid universe), k = 0..3."),
- "C15": ("trace validation across k = depth..depth+2 (uniform and per-variable), plain and custom unit sets, sanitised vs raw (Trace_Sem 'equal','canon')",
+ "C15": ("trace validation across k = depth..depth+2 (uniform and per-variable), plain and custom unit sets, sanitised vs raw, sanitised sets also read through their own API (Trace_Sem 'equal','canon')",
          "All variants must give the same explicit set; sanitised BDDs must live in the canonical variable set and intersect with a plain graph's unit set."),
  "C18": ("trace validation of unsafe_ex vs dirty evaluation; antecedent (fragment / no steady state) decided by TLC (Trace_Sem 'unsafe')",
          "Equality required exactly when the specification says loops cannot matter."),
@@ -50,7 +50,7 @@ SYN = {
 CLI_NOTE = ("Trusted: TLC; the network parsers of biodivine-lib-param-bn; BDD text serialisation and zip framing are not modelled "
             "(observed only through reloaded sets); stdout is split into lines mechanically. Small networks, seeded inputs.")
 CLI = {
- "C16": ("archive as a map in TLA+ (Trace_Arch.RoundTrip); trace validation of build_result_archive -> zip directory -> model re-parse -> load_bdd_bundle, explicit sets before/after, wild-card probe",
+ "C16": ("archive as a map in TLA+ (Trace_Arch.RoundTrip, LinesMatch); trace validation of build_result_archive and of analyse_formulae -> zip directory -> model re-parse -> load_bdd_bundle, explicit sets before/after, entry i vs line i, wild-card probe",
          "Label->set maps incl. empty, full, beyond-unit and result sets, on aeon / bnet / sbml inputs, k = 0..2, fresh paths and paths holding an older larger archive; reloaded sets, entry list, formula list and model judged by TLC."),
  "C19": ("input/output relation of the converter in TLA+ (Converter.Related) evaluated by TLC on recorded runs of the binary (Trace_Conv); the Shannon-expansion algorithm model-checked against completeness for arity 0..3 (MC_Converter)",
          "For each target TLC enumerates every valuation of the fresh constants and compares the set of truth tables with the set of instantiations of the input function; inputs stay inputs, no other targets, no crash."),
